@@ -47,7 +47,9 @@ CLAUSE = {1: "a peerstore call keyed by another peer", 2: "an event naming anoth
           8: "more than recentlyConnectedPeerMaxAddrs addresses kept after the last disconnect",
           9: "connected lifetime kept or promoted after the last disconnect",
           10: "an address keeps the connected lifetime with no connection and no pending notification",
-          11: "a wait channel still open after the identify timeout"}
+          11: "a wait channel still open after the identify timeout",
+          12: "a signed record that is not a valid own record of the message handed on in EvtPeerIdentificationCompleted",
+          13: "more addresses below the connected class than the address book's per-peer cap"}
 
 
 class Tok:
@@ -206,6 +208,7 @@ if __name__ == "__main__":
         "the address book is C09's abstract book (expired = absent) whose per-peer cap on unconnected addresses does not bind; histories in which it would bind are judged by the monitor only",
         "addresses are abstracted to (transport address number, loopback/private/public/other class, /p2p suffix); the class the harness writes is what manet's predicates answer for the real multiaddr",
         "time: TTL classes and expiry by the identify timeout steps only; Go int unbounded",
+        "clause 13 (the address book's own per-peer cap, addr_book.go) is judged on the implementation's traces only; the model is the uncapped book (theorem ..._partial: proved with the cap disabled)",
     ]
     standard_flow(ctx, dict(
         consts=consts,
@@ -219,7 +222,8 @@ if __name__ == "__main__":
              "Connected / Disconnected notifications are delivered in and out of order, identify tasks are answered (crafted multi-chunk "
              "protobuf messages: fields absent / duplicated across chunks / oversized, 9-10-11 chunks, a chunk over signedIDSize, addresses "
              "with own and foreign /p2p suffixes, bare /p2p, unparsable bytes, own / foreign / garbage keys, signed records valid, of another "
-             "peer, wrong peer ID, wrong domain, tampered, wrong type), refused, or left to time out, pushes arrive on live and dead "
+             "peer, wrong peer ID, wrong domain, tampered, wrong type; more addresses than the book's per-peer cap while not connected), refused, or left to "
+             "time out against a remote that stalls before / after the negotiation or mid-message, pushes arrive on live and dead "
              "connections; plus real-goroutine race cases (a push racing with the removal + Disconnected of that or another connection, "
              "fired from inside consumeMessage's locked section, judged on the final contents). After EVERY operation: the peerstore calls made (recording wrapper), events, every wait channel, and the "
              "peerstore contents of ALL peers (addresses with TTL class, protocols, key, versions, record). conform_case compares all of "
